@@ -112,9 +112,19 @@ pub fn isprime64(p: u64) -> (r: bool)
 
     let one = r1;
     let pm1 = p - r1;
+    proof {
+        // r1 = (2^64 - p) % p = 2^64 % p
+        assert(0_u64.wrapping_sub(p) as int == two64() - p as int);
+        lemma_cong_add_multiple(two64() - p as int, 1, p as int);
+        lemma_mul_one(p as int);
+        assert(r1 as int == two64() % (p as int));
+        lemma_mrep_one(p, r1);
+        lemma_miller_decomp(p, tz, podd);
+        assert(r2 as int == ((r1 as int) * (r1 as int)) % (p as int));
+    }
     let mul = |x: u64, y: u64| -> (z: u64)
         requires x < p, y < p
-        ensures z < p
+        ensures z < p, (z as int * two64()) % (p as int) == ((x as int) * (y as int)) % (p as int)
         { proof { lemma_mul_lt(x as int, p as int, y as int, two64()); } arith_montgomery::mg_mul(p, pinv, x, y) };
     // Performs the Miller test for base b.
     let miller = |b: u64| -> (ok: bool)
@@ -122,41 +132,95 @@ pub fn isprime64(p: u64) -> (r: bool)
         ensures ok == sprp(p as nat, b as nat)
     {
         let ghost b0 = b;
+        let ghost pn = p as nat;
+        let ghost bn = b as nat;
+        let ghost dn = podd as nat;
         let b = mul(b, r2);
+        proof { lemma_mrep_enter(b0, r1, r2, b, pn); }
         // Compute b^podd
+        let ghost mut gx: nat = 1;
+        let ghost mut gsq: nat = bn;
         let mut pow = {
             let mut x = one;
             let mut sq = b;
             let mut exp = podd;
+            proof { lemma_sqmul_init(bn, dn, pn); }
             while exp > 0
                 invariant x < p, sq < p,
+                    mrep(x, gx, pn), mrep(sq, gsq, pn), sqmul_inv(bn, dn, gx, gsq, exp as nat, pn),
                     forall|u: u64, v: u64| u < p && v < p ==> call_requires(mul, (u, v)),
-                    forall|u: u64, v: u64, w: u64| call_ensures(mul, (u, v), w) ==> w < p,
+                    forall|u: u64, v: u64, w: u64| call_ensures(mul, (u, v), w) ==> w < p
+                        && (w as int * two64()) % (p as int) == ((u as int) * (v as int)) % (p as int),
                 decreases exp
             {
-                if exp & 1 == 1 {
-                    x = mul(x, sq);
+                proof {
+                    lemma_sqmul_step(bn, dn, gx, gsq, exp as nat, pn);
+                    assert((exp & 1 == 1) == (exp % 2 == 1)) by (bit_vector);
                 }
+                if exp & 1 == 1 {
+                    let ghost x0 = x;
+                    x = mul(x, sq);
+                    proof { lemma_mrep_mul(x0, gx, sq, gsq, x, pn); gx = (gx * gsq) % pn; }
+                }
+                let ghost sq0 = sq;
                 sq = mul(sq, sq);
+                proof { lemma_mrep_mul(sq0, gsq, sq0, gsq, sq, pn); gsq = (gsq * gsq) % pn; }
                 exp /= 2;
             }
+            proof { lemma_sqmul_done(bn, dn, gx, gsq, pn); }
             x
         };
+        let ghost v0 = mchain(bn, dn, pn, 0);
+        proof {
+            assert(pow2n(0) == 1);
+            lemma_mul_one(dn as int);
+            assert(gx == v0);
+            lemma_mrep_inj(pow, gx, one, 1, pn);
+            lemma_mrep_inj(pow, gx, pm1, (pn - 1) as nat, pn);
+            lemma_sprp_chain(pn, bn);
+            vstd::arithmetic::div_mod::lemma_small_mod(1, pn);
+        }
         let mut ok = pow == one || pow == pm1;
-        for _ in 0..tz
+        let ghost mut jj: nat = 0;
+        let ghost mut fin = false;
+        let ghost mut gv: nat = gx;
+        for verif_it in 0..tz
+            invariant_except_break
+                !fin,
             invariant pow < p,
+                fin ==> ok == sprp(pn, bn),
+                !fin ==> jj == verif_it as nat && gv == mchain(bn, dn, pn, jj) && mrep(pow, gv, pn)
+                    && ok == (v0 == 1 || mwit(bn, dn, pn, jj)),
                 forall|u: u64, v: u64| u < p && v < p ==> call_requires(mul, (u, v)),
-                forall|u: u64, v: u64, w: u64| call_ensures(mul, (u, v), w) ==> w < p,
+                forall|u: u64, v: u64, w: u64| call_ensures(mul, (u, v), w) ==> w < p
+                    && (w as int * two64()) % (p as int) == ((u as int) * (v as int)) % (p as int),
         {
+            let ghost pow0 = pow;
+            let ghost ok0 = ok;
             pow = mul(pow, pow);
+            proof {
+                lemma_mrep_mul(pow0, gv, pow0, gv, pow, pn);
+                lemma_mchain_next(bn, dn, pn, jj);
+                gv = (gv * gv) % pn;
+                jj = jj + 1;
+                lemma_mrep_inj(pow, gv, pm1, (pn - 1) as nat, pn);
+                lemma_mrep_inj(pow, gv, one, 1, pn);
+            }
             if pow == pm1 {
                 ok = true;
+                proof {
+                    lemma_mwit_mono(bn, dn, pn, jj, tz as nat);
+                    fin = true;
+                }
                 break;
             } else if pow == one {
+                proof {
+                    lemma_mchain_one(bn, dn, pn, jj, tz as nat);
+                    fin = true;
+                }
                 break;
             }
         }
-        proof { assume(ok == sprp(p as nat, b0 as nat)); }
         ok
     };
     // Bases for 20-bit integers.
